@@ -385,13 +385,21 @@ def planConversion (start stop : UId) : CM α (Plan α) := do
   cassert stopF.isEmpty
   inlinePaths (plan ++ unprefix)
 
+/-- `for scale, offset, _ in path: m = _add(_mul(m, scale**exponent), offset)` -/
+def applyPath (e : Int) : Mag α → List (Hop α) → Except Exc (Mag α)
+  | m, [] => .ok m
+  | m, h :: rest =>
+    match h.scale.powInt e with
+    | .error x => .error x
+    | .ok sc => applyPath e (Mag.add (Mag.mul m sc) h.offset) rest
+
 /-- The application loop of `convert`. -/
-def applyPlan (m : Mag α) (plan : Plan α) : Except Exc (Mag α) :=
-  plan.foldlM (fun m st => do
-    let m := Mag.mul m st.ratio
-    st.path.foldlM (fun m h => do
-      let sc ← h.scale.powInt st.exp
-      pure (Mag.add (Mag.mul m sc) h.offset)) m) m
+def applyPlan : Mag α → Plan α → Except Exc (Mag α)
+  | m, [] => .ok m
+  | m, st :: rest =>
+    match applyPath st.exp (Mag.mul m st.ratio) st.path with
+    | .error x => .error x
+    | .ok m' => applyPlan m' rest
 
 /-- `conversions.convert`. -/
 def convert (q : Qty α) (target : UId) : CM α (Qty α) := do
